@@ -289,10 +289,32 @@ def r173(repo, ctx, index):
     f = repo.func(HP, 'HomogenizationParameters._setHomogenizationFunctionByStr')
     d = [s for s in ast.walk(f) if isinstance(s, ast.Dict)]
     ok = False
+    want_kw = {'WIENER_UPPER': ['wiener', 'upper'], 'WIENER_LOWER': ['wiener', 'lower'], 'HASHIN_UPPER': ['hashin', 'upper'], 'HASHIN_LOWER': ['hashin', 'lower'], 'LABYRINTH': ['lab']}
     if d:
         m = {U.chain(k)[-1]: ast.literal_eval(v) for k, v in zip(d[0].keys, d[0].values) if U.chain(k)}
-        ok = m == {'WIENER_UPPER': ['wiener', 'upper'], 'WIENER_LOWER': ['wiener', 'lower'], 'HASHIN_UPPER': ['hashin', 'upper'], 'HASHIN_LOWER': ['hashin', 'lower'], 'LABYRINTH': ['lab']}
-    ctx.check(ok, 'R17.3', HP, 'HomogenizationParameters._setHomogenizationFunctionByStr', f, 'keyword sets of the five averaging rules map to their ids', 'keyword -> id table of the averaging rules is wrong')
+        ok = m == want_kw
+    else:
+        # written-out form: if all(kw in function for kw in (<keywords>)): self._setHomogenizationFunctionByID(self.<ID>)
+        m = {}
+        for i_ in ast.walk(f):
+            if isinstance(i_, ast.If) and isinstance(i_.test, ast.Call) and U.call_name(i_.test) == 'all' and len(i_.test.args) == 1 \
+                    and isinstance(i_.test.args[0], (ast.GeneratorExp, ast.ListComp)) and len(i_.test.args[0].generators) == 1:
+                g_ = i_.test.args[0].generators[0]
+                e_ = i_.test.args[0].elt
+                fn_par = U.params(f)[1] if len(U.params(f)) > 1 else None
+                ids = [U.chain(c.args[0])[-1] for st_ in i_.body for c in ast.walk(st_) if isinstance(c, ast.Call) and (U.call_name(c) or '').endswith('_setHomogenizationFunctionByID')
+                       and c.args and U.chain(c.args[0]) and U.chain(c.args[0])[0] == 'self']
+                if isinstance(g_.iter, (ast.Tuple, ast.List)) and all(isinstance(x, ast.Constant) for x in g_.iter.elts) and len(ids) == 1 and not g_.ifs \
+                        and isinstance(e_, ast.Compare) and len(e_.ops) == 1 and isinstance(e_.ops[0], ast.In) and isinstance(e_.left, ast.Name) and isinstance(g_.target, ast.Name) \
+                        and e_.left.id == g_.target.id and isinstance(e_.comparators[0], ast.Name) and e_.comparators[0].id == fn_par and ids[0] not in m:
+                    m[ids[0]] = [x.value for x in g_.iter.elts]
+        if not m:
+            ctx.undecided('R17.3', HP, 'HomogenizationParameters._setHomogenizationFunctionByStr', f, 'keyword table of the averaging rules not found as a dictionary literal or a chain of keyword tests')
+            ok = None
+        else:
+            ok = m == want_kw
+    if ok is not None:
+        ctx.check(ok, 'R17.3', HP, 'HomogenizationParameters._setHomogenizationFunctionByStr', f, 'keyword sets of the five averaging rules map to their ids', 'keyword -> id table of the averaging rules is wrong')
 
 
 def r174(repo, ctx):
